@@ -307,6 +307,20 @@ func c12OrderKey(r []cid.Cid) string {
 type c12Memo struct {
 	probeSeen map[string]bool
 	want      map[string][]byte // puts so far + order of the roots -> bytes of the uninterrupted session
+	wantFail  map[string]string // the same key -> operation the uninterrupted session itself failed at ("" = none)
+}
+
+// c12PutNames expands the put operations done so far ("a", "many:a,b") into block names.
+func c12PutNames(puts []string) []string {
+	var out []string
+	for _, p := range puts {
+		if strings.HasPrefix(p, "many:") {
+			out = append(out, strings.Split(strings.TrimPrefix(p, "many:"), ",")...)
+		} else {
+			out = append(out, p)
+		}
+	}
+	return out
 }
 
 // c12Run executes ops (+ final Finalize) with interruptions and compares with uninterrupted sessions.
@@ -315,6 +329,9 @@ func c12Run(x *kit.Ctx, cs C12Case, ops []string, memo *c12Memo, onlyProbe strin
 	ops = append([]string{}, ops...) // the caller's slice is reused by the enumeration
 	if memo == nil {
 		memo = &c12Memo{want: map[string][]byte{}}
+	}
+	if memo.wantFail == nil {
+		memo.wantFail = map[string]string{}
 	}
 	baseNames := cs.base()
 	roots := c12Cids(baseNames)
@@ -349,6 +366,7 @@ func c12Run(x *kit.Ctx, cs C12Case, ops []string, memo *c12Memo, onlyProbe strin
 			return w
 		}
 		upath := filepath.Join(x.Dir, "c12-uninterrupted.car")
+		failedAt := ""
 		once := func() []byte {
 			os.Remove(upath)
 			defer os.Remove(upath)
@@ -356,18 +374,28 @@ func c12Run(x *kit.Ctx, cs C12Case, ops []string, memo *c12Memo, onlyProbe strin
 			if err != nil {
 				panic(err)
 			}
-			for _, n := range puts {
-				if err := u.Put(kit.B(n)); err != nil {
-					panic(err)
+			// the uninterrupted session does the same operations: a batch is a PutMany here too
+			for i, n := range puts {
+				if strings.HasPrefix(n, "many:") {
+					err = u.PutMany(kit.Bs(strings.Split(strings.TrimPrefix(n, "many:"), ",")))
+				} else {
+					err = u.Put(kit.B(n))
+				}
+				if err != nil {
+					failedAt = fmt.Sprintf("put#%d", i)
+					u.Discard()
+					return nil
 				}
 			}
 			if err := u.Finalize(); err != nil {
-				panic(err)
+				failedAt = "finalize"
+				return nil
 			}
 			w, _ := os.ReadFile(upath)
 			return w
 		}
 		w := once()
+		memo.wantFail[k] = failedAt
 		// "byte-identical to the uninterrupted session" presupposes that this session's bytes are a function of the
 		// roots, options and puts: the reference is written twice and compared (a replay of such a report repeats it
 		// cs.Repeat times, so that a difference that shows only now and then is confirmed)
@@ -379,7 +407,11 @@ func c12Run(x *kit.Ctx, cs C12Case, ops []string, memo *c12Memo, onlyProbe strin
 			if w2 := once(); !bytes.Equal(w, w2) {
 				var pops []string
 				for _, n := range puts {
-					pops = append(pops, "put:"+n)
+					if strings.HasPrefix(n, "many:") {
+						pops = append(pops, n)
+					} else {
+						pops = append(pops, "put:"+n)
+					}
 				}
 				x.FailCase(C12Case{Front: cs.Front, Opts: cs.Opts, Ops: pops, Base: cs.Base, OpsSet: cs.OpsSet, Repeat: 400}, "c12:uninterrupted-not-deterministic:"+cs.Front,
 					"two uninterrupted sessions with the same roots, options and puts %v wrote different files (first difference at byte %d of %d/%d)", puts, c12FirstDiff(w, w2), len(w), len(w2))
@@ -404,6 +436,13 @@ func c12Run(x *kit.Ctx, cs C12Case, ops []string, memo *c12Memo, onlyProbe strin
 			}
 		}
 		return false
+	}
+	// refFailsAt: the operation at which the uninterrupted session of these puts fails itself ("" = it succeeds).
+	// The statement compares with the file the uninterrupted session writes; where that session writes none, an
+	// interrupted session that fails at the same operation is beyond the statement.
+	refFailsAt := func(puts []string) string {
+		uninterrupted(puts, roots)
+		return memo.wantFail[strings.Join(puts, ",")+"#"+c12OrderKey(roots)]
 	}
 	probe := func(step int) {
 		img, _ := os.ReadFile(path)
@@ -443,6 +482,11 @@ func c12Run(x *kit.Ctx, cs C12Case, ops []string, memo *c12Memo, onlyProbe strin
 		case strings.HasPrefix(op, "put:"):
 			n := strings.TrimPrefix(op, "put:")
 			if err := s.Put(kit.B(n)); err != nil {
+				if refFailsAt(append(append([]string{}, puts...), n)) == fmt.Sprintf("put#%d", len(puts)) {
+					x.Outcome("beyond-statement:put-refused-by-uninterrupted-session-too")
+					s.Discard()
+					return
+				}
 				x.FailCase(rc, "c12:put-error:"+cs.Front, "Put(%s) after %v failed: %v", n, ops[:i], err)
 				s.Discard()
 				return
@@ -451,16 +495,25 @@ func c12Run(x *kit.Ctx, cs C12Case, ops []string, memo *c12Memo, onlyProbe strin
 		case strings.HasPrefix(op, "many:"):
 			ns := strings.Split(strings.TrimPrefix(op, "many:"), ",")
 			if err := s.PutMany(kit.Bs(ns)); err != nil {
+				if refFailsAt(append(append([]string{}, puts...), op)) == fmt.Sprintf("put#%d", len(puts)) {
+					x.Outcome("beyond-statement:put-refused-by-uninterrupted-session-too")
+					s.Discard()
+					return
+				}
 				x.FailCase(rc, "c12:put-error:"+cs.Front, "PutMany(%v) after %v failed: %v", ns, ops[:i], err)
 				s.Discard()
 				return
 			}
-			puts = append(puts, ns...)
+			puts = append(puts, op)
 		case op == "D" || op == "F":
 			if op == "D" {
 				s.Discard()
 			} else {
 				if err := s.Finalize(); err != nil {
+					if refFailsAt(puts) == "finalize" {
+						x.Outcome("beyond-statement:finalize-refused-by-uninterrupted-session-too")
+						return
+					}
 					x.FailCase(rc, "c12:finalize-error:"+cs.Front, "Finalize after %v failed: %v", ops[:i], err)
 					return
 				}
@@ -509,7 +562,7 @@ func c12Run(x *kit.Ctx, cs C12Case, ops []string, memo *c12Memo, onlyProbe strin
 		}
 	}
 	// the resumed session serves every block put so far, with its bytes
-	for _, n := range puts {
+	for _, n := range c12PutNames(puts) {
 		b := kit.B(n)
 		if b.Cid.Prefix().MhType == 0 && !cs.Opts.StoreID {
 			continue
@@ -521,6 +574,10 @@ func c12Run(x *kit.Ctx, cs C12Case, ops []string, memo *c12Memo, onlyProbe strin
 		}
 	}
 	if err := s.Finalize(); err != nil {
+		if refFailsAt(puts) == "finalize" {
+			x.Outcome("beyond-statement:finalize-refused-by-uninterrupted-session-too")
+			return
+		}
 		x.FailCase(rc, "c12:final-finalize-error:"+cs.Front, "final Finalize after %v failed: %v", ops, err)
 		return
 	}
